@@ -48,7 +48,7 @@ type TFunc struct {
 	Name   string `json:"name"`
 	Oneway bool   `json:"oneway"`
 	Arg    TFld   `json:"arg"`
-	Ret    TyX    `json:"ret"` // t = 1: void
+	Ret    TyX    `json:"ret"`    // t = 1: void
 	Throws []TFld `json:"throws"` // none or one
 }
 type TSvc struct {
